@@ -32,6 +32,12 @@ KERNELS = {
     "_get_spans_for_2_fields_by_spans": {"owner": "C08"},
     "apply_filter_to_index_values": {"owner": "C09"},
     "apply_indices_to_index_values": {"owner": "C09"},
+    "map_valid": {"owner": "C04"},
+    "ordered_map_valid_partial": {"owner": "C04", "mutated": [5]},   # result_data is written in place
+    # translated and executed against the real kernels; no refinement theorem yet (they exercise `break`, a `while` whose
+    # guard subscripts, and the read of a possibly unbound local)
+    "next_map_subchunk": {"owner": "C04"},
+    "get_valid_value_extents": {"owner": "C04"},
 }
 C08_NOSRC = ("apply_spans_count", "apply_spans_index_of_first", "apply_spans_index_of_last")
 
@@ -175,8 +181,84 @@ def random_c09(rng, n_cases):
     return out
 
 
-DERIVE = {"C08": derive_c08, "C09": derive_c09}
-RANDOM = {"C08": random_c08, "C09": random_c09}
+# ----------------------------------------------------------------------------------------------------------------------
+# C04: map_valid, ordered_map_valid_partial, next_map_subchunk, get_valid_value_extents
+# ----------------------------------------------------------------------------------------------------------------------
+
+def ints_only(xs):
+    return all(isinstance(x, int) and not isinstance(x, bool) for x in xs)
+
+
+def map_safe(m, inv, lo, n):
+    """every valid map entry addresses a source row: lo ≤ k < lo + n (a negative offset within -n..-1 wraps, still in range)"""
+    return all(k == inv or -n <= k - lo < n for k in m)
+
+
+def derive_c04(case):
+    op = case.get("op")
+    if op == "map_valid" and ints_only(case["src"]) and ints_only(case["map"]):
+        res = case.get("result")
+        if res is not None and (not ints_only(res) or len(res) != len(case["map"])):
+            return None
+        return gcase("map_valid", [arr(case["src"]), arr(case["map"]), NONE if res is None else arr(res), {"int": case["inv"]}],
+                     unsafe=not map_safe(case["map"], case["inv"], 0, len(case["src"])), _from="C04")
+    if op == "next_map_subchunk" and ints_only(case["map"]):
+        return gcase("next_map_subchunk", [arr(case["map"]), {"int": case["sm"]}, {"int": case["inv"]}, {"int": case["cs"]}],
+                     unsafe=case["sm"] < 0, fuel=2 * len(case["map"]) + 8, _from="C04")
+    if op == "extents" and ints_only(case["map"]):
+        s_, e_ = case["start"], case["end"]
+        return gcase("get_valid_value_extents", [arr(case["map"]), {"int": s_}, {"int": e_}, {"int": case["inv"]}],
+                     unsafe=not (0 <= s_ < e_ <= len(case["map"])), fuel=len(case["map"]) + 8, _from="C04")
+    return None
+
+
+def random_c04(rng, n_cases):
+    out = []
+    for t in range(n_cases):
+        inv = rng.choice([-1, -1, 2147483647, 4611686018427387904])
+        nsrc = rng.choice([0, 1, 2, 5, rng.randrange(1, 30)])
+        n = rng.choice([0, 1, 2, 3, rng.randrange(1, 25)])
+        src = [rng.randrange(-50, 1000) for _ in range(nsrc)]
+        what = t % 4
+        if what == 0:
+            bad = rng.random() < 0.15
+            m = [inv if rng.random() < 0.3 or nsrc == 0 else rng.randrange(-nsrc if bad else 0, nsrc + (2 if bad else 0))
+                 for _ in range(n)]
+            res = NONE if rng.random() < 0.5 else arr([rng.randrange(100) for _ in m])
+            out.append(gcase("map_valid", [arr(src), arr(m), res, {"int": inv}], unsafe=not map_safe(m, inv, 0, nsrc),
+                             _from="random"))
+        elif what == 1:
+            # as ordered_map_valid_stream calls it: a window [lo, lo + len(values)) of the source and a sub-chunk [s, e)
+            lo = rng.randrange(0, 50)
+            bad = rng.random() < 0.15
+            m = [inv if rng.random() < 0.3 or nsrc == 0 else lo + rng.randrange(-1 if bad else 0, nsrc + (1 if bad else 0))
+                 for _ in range(n)]
+            s_ = rng.randrange(0, n + 1)
+            e_ = rng.randrange(s_, n + 1)
+            buf = [rng.randrange(7, 10) for _ in range(n + (0 if rng.random() < 0.9 else -1 if n else 0))]
+            safe = map_safe(m[s_:e_], inv, lo, nsrc) and e_ <= len(buf)
+            out.append(gcase("ordered_map_valid_partial",
+                             [arr(src), arr(m), {"int": s_}, {"int": e_}, {"int": lo}, arr(buf), {"int": inv},
+                              {"int": rng.choice([0, -5])}], unsafe=not safe, fuel=n + 4, _from="random"))
+        elif what == 2:
+            m = sorted(rng.randrange(0, 40) for _ in range(n))
+            m = [inv if rng.random() < 0.3 else k for k in m]
+            if rng.random() < 0.3 and n >= 2:           # a step back, as in the map of the non-driving side of a join
+                i = rng.randrange(1, n)
+                m[i:] = [inv if k == inv else max(k - 20, 0) for k in m[i:]]
+            out.append(gcase("next_map_subchunk", [arr(m), {"int": rng.randrange(0, n + 2)}, {"int": inv},
+                                                   {"int": rng.choice([1, 2, 5, 1000])}], fuel=2 * n + 8, _from="random"))
+        else:
+            m = [inv if rng.random() < 0.5 else rng.randrange(0, 40) for _ in range(n)]
+            s_ = rng.randrange(0, n + 1)
+            e_ = rng.randrange(0, n + 1)
+            out.append(gcase("get_valid_value_extents", [arr(m), {"int": s_}, {"int": e_}, {"int": inv}],
+                             unsafe=not (0 <= s_ < e_ <= n), fuel=n + 8, _from="random"))
+    return out
+
+
+DERIVE = {"C08": derive_c08, "C09": derive_c09, "C04": derive_c04}
+RANDOM = {"C08": random_c08, "C09": random_c09, "C04": random_c04}
 
 
 def extra_cases(owner, cases, tier, rng):
@@ -254,7 +336,15 @@ def impl(case):
         return {"skipped": "a call that may subscript out of range is not executed in the compiled mode"}
     np, ops = e["np"], e["ops"]
     fn = getattr(ops, case["kernel"])
-    return {"val": _canon(np, fn(*[_decode(np, a) for a in case["args"]]))}
+    args = [_decode(np, a) for a in case["args"]]
+    ret = fn(*args)
+    parts = [_canon(np, x) for x in ret] if isinstance(ret, tuple) else [_canon(np, ret)]
+    mutated = KERNELS.get(case["kernel"], {}).get("mutated")
+    if mutated:                  # arrays the kernel writes in place are part of its result (translator: `mutated`)
+        val = parts + [_canon(np, args[i]) for i in mutated]
+    else:
+        val = parts if isinstance(ret, tuple) else parts[0]
+    return {"val": val}
 
 
 def to_model(case):
